@@ -285,7 +285,8 @@ Definition tail_cases (s : db) (conn : N) (c c1 : cmd) (k : N) (m : mgr) (s' : d
   (* 6: millisecond flags: outside the model *)
   \/ (w = None /\ (exists site, ev = [EPanic site])
       /\ (vals_kept s s'
-          \/ exists recov, value_effect c (has_data_flag c) (env (add32 (m_locked m) 1) recov) None s k s' ev)).
+          \/ ((0 <? c_expried c) = true
+              /\ exists recov, value_effect c (has_data_flag c) (env (add32 (m_locked m) 1) recov) None s k s' ev))).
 
 Lemma ls_tail_cases s conn c k waited m s' ev w :
   ls_tail s conn c k waited = (s', ev, w) -> aget (mgrs s) k = Some m -> tail_cases s conn c c k m s' ev w.
@@ -351,7 +352,7 @@ Proof.
       intros m' Hm'; eapply vals_kept_data_of; eauto
     | (* 6 *) do 5 right; split; [reflexivity|]; split; [eexists; reflexivity|];
       first [ left; apply vals_kept_of_mrel; first [exact HXd | eapply mrel_trans; [solve [rd]|exact H0s|solve [rd]]]
-            | right; eexists; eapply value_effect_ran;
+            | right; split; [reflexivity|]; eexists; eapply value_effect_ran;
               [eassumption|exact Hdr|right; eexists; left; reflexivity|exact HgdX|exact HlkX|exact HwtX|exact HldX] ]
     | idtac ].
 Qed.
@@ -390,7 +391,8 @@ Lemma ls_relock_cases s conn c1 k m r l ldata s' ev w c' wt :
   (* probe: Expried = 0 on a LockId that holds the key *)
   (s' = s /\ w = None /\ ev = [reply conn c1 R_SUCCED (m_locked m) (l_locked l) ldata])
   (* one more level *)
-  \/ ((exists cc mid lc lrc,
+  \/ ((c_expried c1 =? 0) = false
+      /\ (exists cc mid lc lrc,
          ev = EGrant k r false (m_locked m) cc (c_count c1) :: mid ++ [reply conn c1 R_SUCCED lc lrc ldata]
          /\ Forall quiet mid)
       /\ value_effect c1 (has_data_flag c1) (mk_env c1 (add32 (m_locked m) 1) (m_waited m) false) (l_data (getl s r))
@@ -415,7 +417,7 @@ Proof.
          assert (Hdr : mrel (le_mark k) true d1 d1) by (apply mrel_refl; rd) end.
   all: first
     [ left; split; [reflexivity|]; split; reflexivity
-    | right; split;
+    | right; split; [reflexivity|]; split;
       [ do 4 eexists; split; [rewrite ?app_assoc; reflexivity|quiet_solve]
       | first [ eapply value_effect_ran; [eassumption|rd|pev_solve|exact HgdX|exact HlkX|exact HwtX|exact HldX]
               | apply value_effect_marked; [eapply mrel_trans; [rd|exact HXs|rd]|left; reflexivity] ] ] ].
@@ -466,7 +468,7 @@ Lemma ls_held_cases s conn c k m res c1 wt :
                           /\ Forall quiet mid)
           /\ value_effect c (has_data_flag c) (mk_env c (m_locked m) (m_waited m) false) (l_data (getl s r)) s k s' ev)
       (* one more level of an own hold *)
-      \/ (has (c_flag c) LOCK_FLAG_UPDATE = false
+      \/ (has (c_flag c) LOCK_FLAG_UPDATE = false /\ (c_expried c =? 0) = false
           /\ exists r, get_locked_lock s m (c_lockid c1) = Some r
           /\ (exists cc mid lc lrc,
                 ev = EGrant k r false (m_locked m) cc (c_count c1) :: mid ++ [reply conn c1 R_SUCCED lc lrc (data_of s k)]
@@ -513,7 +515,7 @@ Proof.
       subst c1. split; [exact Hrt|].
       destruct res as [[[s' ev] w]|].
       2:{ unfold ls_relock in H. repeat (split_hyp H); inv_tuple H; discriminate. }
-      destruct (ls_relock_cases _ _ _ _ _ _ _ _ _ _ _ _ _ H Hm) as [(-> & -> & ->)|(Hshape & Hval)].
+      destruct (ls_relock_cases _ _ _ _ _ _ _ _ _ _ _ _ _ H Hm) as [(-> & -> & ->)|(Hnz & Hshape & Hval)].
       * unfold ls_relock in H. destruct (c_expried cx =? 0) eqn:Ez.
         -- left. split; [reflexivity|]. split; [reflexivity|]. do 4 eexists. split; [reflexivity|].
            split; [exact Hf6|]. right. right. split; [first [exact Eu|reflexivity]|]. right. split; [reflexivity|].
@@ -521,7 +523,8 @@ Proof.
         -- exfalso. repeat (split_hyp H); inv_tuple H;
            match goal with Hx : Some _ = Some _ |- _ => apply (f_equal (fun o => match o with Some (_, e, _) => length e | None => O end)) in Hx; cbv beta iota in Hx end;
            rewrite !app_length in *; cbn [length] in *; lia.
-      * right. right. split; [first [exact Eu|reflexivity]|]. exists r. split; [exact Eg|]. split; [exact Hshape|].
+      * right. right. split; [first [exact Eu|reflexivity]|]. split; [rewrite <- Hf5; exact Hnz|].
+        exists r. split; [exact Eg|]. split; [exact Hshape|].
         rewrite (retarget_data_flag _ _ Hrt), (retarget_env _ _ _ _ _ Hrt) in Hval.
         eapply retarget_value_effect; eauto.
     + inv_tuple H. split; [exact Hrt|]. left. split; [reflexivity|]. split; [reflexivity|].
